@@ -16,7 +16,8 @@ pub struct Cfg {
     pub k: u16,
     pub parity: u16,
     /// 0: one block, 1: two equal, 2: two unequal (k, k-1), 3: three blocks, 4: five blocks,
-    /// 5: seven blocks of unequal size (large sessions: bounded number of losses instead of all subsets)
+    /// 5: seven blocks of unequal size (large sessions: bounded number of losses instead of all subsets),
+    /// 6: one block of exactly k symbols (used with k + parity = 255 / 256: every single loss)
     pub shape: u8,
     pub interleave: u8,
     pub inband_fti: bool,
@@ -36,6 +37,7 @@ impl Cfg {
             2 => (2 * k - 1) * e - 1,
             3 => 3 * k * e - 1,
             4 => 5 * k * e - 1,
+            6 => k * e - 1,
             _ => (7 * k - 3) * e - 1,
         }
     }
@@ -46,7 +48,7 @@ impl Cfg {
         o.count = self.count;
         o.inband_cenc = self.inband_fti;
         // half of the sessions without Content-MD5 (the receiver then has no second line of defence)
-        o.md5 = (self.shape + self.interleave + self.k as u8) % 2 == 0;
+        o.md5 = (self.shape as u32 + self.interleave as u32 + self.k as u32) % 2 == 0;
         let mut s = SessSpec::basic(OtiSpec::new(Scheme::NoCode, 1424, 64, 0, true));
         s.interleave = self.interleave;
         RecSpec { sess: s, objs: vec![o], polls_ms: vec![0] }
@@ -447,10 +449,20 @@ fn configs(thorough: bool) -> Vec<Cfg> {
             }
         }
     }
+    // Reed-Solomon blocks at the limit of GF(2^8): 255 and 256 encoding symbols, every single loss
+    for (scheme, k, parity) in [(Scheme::Rs28, 250u16, 5u16), (Scheme::Rs28Us, 250, 5), (Scheme::Rs28Us, 250, 6), (Scheme::Rs28Us, 255, 1)] {
+        if !thorough && !(scheme == Scheme::Rs28Us && parity == 6) && scheme != Scheme::Rs28 {
+            continue;
+        }
+        v.push(Cfg { scheme, k, parity, shape: 6, interleave: 1, inband_fti: k % 2 == 0, count: 1 });
+    }
     v
 }
 
+static STRIDE: std::sync::atomic::AtomicBool = std::sync::atomic::AtomicBool::new(false);
+
 pub fn run(thorough: bool) -> i32 {
+    STRIDE.store(!thorough, std::sync::atomic::Ordering::Relaxed);
     let mut rep = Report::new("C02", "fault_enumeration", if thorough { "thorough" } else { "quick" });
     let cfgs = configs(thorough);
     let dup_nmax = if thorough { 10 } else { 7 };
@@ -458,6 +470,9 @@ pub fn run(thorough: bool) -> i32 {
     let mut items = Vec::new();
     for (ci, _) in cfgs.iter().enumerate() {
         for fdt in [FdtMode::First, FdtMode::Late, FdtMode::Never] {
+            if cfgs[ci].shape == 6 && fdt != FdtMode::First && !thorough {
+                continue;
+            }
             items.push((ci, fdt, 0u8));
             items.push((ci, fdt, 1u8));
         }
@@ -483,7 +498,10 @@ pub fn run(thorough: bool) -> i32 {
             if n > 16 {
                 // large session: all patterns with at most `maxl` losses (mode 0), or with one loss
                 // and one duplicate (mode 1)
-                let maxl = if thorough { 3 } else { 2 };
+                let maxl = if n > 100 { 1 } else if thorough { 3 } else { 2 };
+                if *mode == 1 && n > 100 {
+                    return (g, viol, None, n);
+                }
                 if *mode == 0 {
                     let mut mult = vec![1u8; n];
                     fn rec(p: &Prepared, fdt: FdtMode, mult: &mut Vec<u8>, from: usize, left: usize, g: &mut G, push: &mut dyn FnMut(String, String, &[u8])) {
@@ -493,7 +511,14 @@ pub fn run(thorough: bool) -> i32 {
                         if left == 0 {
                             return;
                         }
-                        for i in from..mult.len() {
+                        let n = mult.len();
+                        // blocks of 255 / 256 symbols: a reconstruction costs ~50 ms, the quick tier takes every 16th
+                        // single loss (plus the first and last source symbol and every repair symbol)
+                        let stride = if n > 100 && STRIDE.load(std::sync::atomic::Ordering::Relaxed) { 16 } else { 1 };
+                        for i in from..n {
+                            if stride > 1 && i % stride != 0 && i + 8 < n {
+                                continue;
+                            }
                             mult[i] = 0;
                             rec(p, fdt, mult, i + 1, left - 1, g, push);
                             mult[i] = 1;
